@@ -23,7 +23,8 @@ Clause → theorem   (model: `Model/Intersect.lean`; carrier: any ordered field)
                                                           design_conditions_top_ordinate (end to end)
   any number of crossings (section 4 #11)                 design_any_number_of_crossings,
                                                           design_old_agrees, assert_le_two_counterexample
-  probe segment covers the contour (found here)           probe_covers, probeOld_counterexample
+  probe segment covers the contour (found here)           probe_covers, probeOld_counterexample,
+                                                          probeOld_design_counterexample
   non-crossing abscissae are omitted, crossing ones kept  design_omits_noncrossing, design_reports_crossing,
                                                           design_omits_outside, design_abscissae_sublist
   default abscissae span the extent                       linspaceEnd_eq, design_default_span
